@@ -124,7 +124,7 @@ def vary_container(rng, spec):
     spec['gloc_long'] = rng.random() < 0.5
     spec['gloc_attrids'] = rng.random() < 0.3
     spec['loca_long'] = rng.random() < 0.3
-    if spec.get('feats'):
+    if spec.get('feats') and 'feat_version' not in spec:
         spec['feat_version'] = rng.choice([1, 2])
         if spec['feat_version'] == 1:
             for i, f in enumerate(spec['feats']):
@@ -358,4 +358,99 @@ def cmap_spec(rng):
                 continue
             spec['extra_attr_glyphs'].append({'attrs': {0: rng.randrange(1, ng), 1: 0}})
             spec['pseudos'].append((u, ng + len(spec['extra_attr_glyphs']) - 1))
+    return spec
+
+
+def feat_spec(rng):
+    """Fonts whose interest is Feat / Sill / name: 1..300 features whose value widths make the packed representation
+    straddle 32-bit words in every way, v1 and v2 layouts, hidden features, negative setting values, features without
+    settings (unbounded), 0..40 languages with zero-padded tags of 1..4 letters, label strings in several languages
+    (BMP and astral), name tables laid out with and without records of other platforms in front."""
+    spec = gen_spec(rng, set("cons,pre,rtl,lookup".split(',')))
+    v2 = rng.random() < 0.6
+    style = rng.randrange(6)
+    nfeat = rng.choice([1, 2, 5, 12, 40, 120]) if style else rng.choice([200, 270, 300, 2200])
+    feats = []
+    ids = set()
+    next_name = 256
+    names = {}           # name id -> {lang: string}
+    def newname(text):
+        nonlocal next_name
+        nid = next_name
+        next_name += 1
+        langs = rng.sample([0x409, 0x40C, 0x809, 0x407, 0x411, 0x80C], rng.randrange(1, 4))
+        if rng.random() < 0.2 and 0x409 in langs:
+            langs.remove(0x409)
+        if not langs:
+            langs = [0x40C]
+        names[nid] = {l: '%s-%x%s' % (text, l, rng.choice(['', '', ' \u00e9\u4e2d', ' \U0001F600'])) for l in langs}
+        return nid
+    for i in range(nfeat):
+        while True:
+            fid = rng.randrange(2, 60000) if not v2 else rng.choice([rng.randrange(2, 1 << 16), rng.randrange(1 << 24, 1 << 31), 0x61000000 + rng.randrange(1 << 20)])
+            if fid not in ids and (fid & 0xFF) not in (0x20,) and fid != 0x20202020:
+                ids.add(fid)
+                break
+        kind = rng.random()
+        if style == 0 and nfeat >= 200:
+            kind = 0.95 if rng.random() < 0.9 else kind       # mostly unbounded: more than 256 storage words
+        if kind < 0.9:
+            width = rng.randrange(0, 17)
+            mx = 0 if width == 0 else rng.randrange(1 << (width - 1), 1 << width)
+            nset = rng.randrange(1, 6)
+            vals = [mx] + [rng.randrange(0, mx + 1) for _ in range(nset - 1)]
+            rng.shuffle(vals)
+            settings = [(v if v < 0x8000 else v - 0x10000, newname('s%d' % v) if i < 40 else 300) for v in vals]
+        else:
+            settings = []
+        feats.append({'id': fid, 'settings': settings, 'label': newname('f%d' % i) if i < 60 else 299, 'flags': 0x0800 if rng.random() < 0.15 else 0})
+    if rng.random() < 0.3:
+        feats[rng.randrange(len(feats))]['id'] = 1        # the language feature
+        if rng.random() < 0.5:
+            [f for f in feats if f['id'] == 1][0]['settings'] = []
+    spec['feats'] = feats
+    spec['feat_version'] = 2 if v2 else 1
+    if not v2:
+        for f in feats:
+            f['id'] &= 0xFFFF
+        seen = set()
+        for f in feats:
+            while f['id'] in seen or f['id'] == 0 or (f['id'] & 0xFF) == 0x20:
+                f['id'] = (f['id'] + 7) & 0xFFFF
+            seen.add(f['id'])
+    langs = []
+    tags = set()
+    for _ in range(rng.choice([0, 1, 3, 12, 40])):
+        n = rng.randrange(1, 5)
+        tag = ''.join(rng.choice('abcdefghijklmnopqrstuvwxyz') for _ in range(n))
+        if tag in tags:
+            continue
+        tags.add(tag)
+        st = []
+        for f in rng.sample(feats, min(len(feats), rng.randrange(0, 5))):
+            mx = max([v & 0xFFFF for v, _ in f['settings']]) if f['settings'] else 0xFFFF
+            st.append((f['id'], rng.choice([0, mx, rng.randrange(0, mx + 1), min(mx + 1, 0xFFFF)])))
+        if rng.random() < 0.1:
+            st.append((0x7FFFFFF0 if v2 else 0xFFF0, 1))       # a feature the font does not have
+        langs.append((tag, st))
+    langs.sort(key=lambda x: (x[0] + '\0\0\0\0')[:4])
+    if langs:
+        spec['sill'] = langs
+    recs = []
+    layout = rng.randrange(4)
+    if layout == 1:
+        recs += [(1, 0, 0, 1, 'MacFamily'), (1, 0, 0, 256, 'MacFeat')]
+    if layout in (0, 1, 3):
+        recs += [(3, 1, 0x409, 0, 'Copyright'), (3, 1, 0x409, 1, 'Family')] if layout != 3 else []
+    win = []
+    for nid in sorted(names):
+        for l in sorted(names[nid]):
+            win.append((3, 1, l, nid, names[nid][l]))
+    if layout == 2 and len(win) > 1 and rng.random() < 0.5:
+        recs = [(1, 0, 0, 256, 'MacFeat')]
+        win = win[:1]                                       # exactly one Windows record after another platform's record
+    recs += win
+    recs.sort(key=lambda r_: (r_[0], r_[1], r_[2], r_[3]))
+    spec['names'] = [list(r_) for r_ in recs]
+    spec['tags'] = spec.get('tags', []) + ['name-layout-%d' % layout]
     return spec
